@@ -55,6 +55,23 @@ def parseJ : Nat → List String → Option (J × List String)
       | _ => none
   | _, [] => none
 
+mutual
+  /-- a document in the prefix form `parseJ` reads -/
+  def showJ : J → List String
+    | .num t => ["n:" ++ showCps t]
+    | .bool b => [if b then "b:1" else "b:0"]
+    | .str t => ["s:" ++ showCps t]
+    | .null => ["z"]
+    | .arr xs => s!"a:{xs.length}" :: showJs xs
+    | .obj fs => s!"o:{fs.length}" :: showFs fs
+  def showJs : List J → List String
+    | [] => []
+    | x :: xs => showJ x ++ showJs xs
+  def showFs : List (List Nat × J) → List String
+    | [] => []
+    | (k, v) :: rest => showCps k :: (showJ v ++ showFs rest)
+end
+
 /-- `rows lo n`: for the `n` Julian days from `lo`: `year month day julian_day(date) weekday(date)`, `;`-separated -/
 def dateRows (lo : Int) : Nat → List String
   | 0 => []
@@ -96,6 +113,14 @@ def convEngine (f : String) (args : List String) : String :=
     match parseJ (toks.length + 1) toks with
     | some (j, []) => showCps (ser j)
     | _ => "bad-op"
+  | "parse", [t] =>
+    match parseCps t with
+    | some t => (match parseJson t with | some j => "ok " ++ String.intercalate " " (showJ j) | none => "none")
+    | none => "bad-op"
+  | "reser", [t] =>
+    match parseCps t with
+    | some t => (match parseJson t with | some j => "ok " ++ showCps (ser j) | none => "none")
+    | none => "bad-op"
   | "names", [] => String.intercalate " " stdNames
   | _, _ => "bad-op"
 
